@@ -1,18 +1,18 @@
 """C12 — Fq2 arithmetic is arithmetic in Fq[u]/(u²+2) (structural clauses)."""
 from core import report
 from core.sm9 import Repo
-from . import shared, field, layout, convert
+from . import shared, field, conv2
 
 
 def run(ctx):
     repo = Repo(ctx.dev)
-    ls = convert.make_lensim(repo)
-    r_lay, _ = layout.rule_layout("C12", repo, layout.std_tables(repo.P)[:1])
+    ls = conv2.make_conv(repo)
+    r_lay, _ = conv2.rule_layout("C12", repo, ls, ["crate::fields::fq2::Fq2::to_slice", "crate::Fq2::to_slice", "crate::G2::to_compressed"])
     spec = {"crate::Fq2::from_slice": {"lens": {64}, "prefix": None}, "crate::fields::fq2::Fq2::from_slice": {"lens": {64}, "prefix": None}}
-    r_acc, results = convert.rule_accept("C12", repo, ls, spec, "dev")
-    rules = [field.rule_tower_consts("C12", repo), field.rule_zero_cover("C12", repo), field.rule_tower_shapes("C12", repo), r_lay, layout.rule_wrappers("C12", repo, [("crate::Fq2::to_slice", "crate::fields::fq2::Fq2::to_slice")]),
-             layout.rule_decoder_layout("C12", repo, ls), layout.rule_conv_traits("C12", repo), r_acc, convert.rule_total("C12", repo, ls, list(spec), "dev", results),
-             layout.rule_parity_encoder("C12", repo, ls), shared.rule_eq_derived(repo, ["crate::Fq2", "crate::fields::fq2::Fq2"]),
+    r_acc, results = conv2.rule_accept("C12", repo, ls, spec, "dev")
+    rules = [field.rule_tower_consts("C12", repo), field.rule_zero_cover("C12", repo), field.rule_tower_shapes("C12", repo), r_lay,
+             conv2.rule_decoder_layout("C12", repo, ls, ["crate::fields::fq2::Fq2::from_slice", "crate::Fq2::from_slice"]), conv2.rule_conv_traits("C12", repo, ls), r_acc, conv2.rule_total("C12", repo, ls, list(spec), "dev", results),
+             conv2.rule_is_even("C12", repo, ls), shared.rule_eq_derived(repo, ["crate::Fq2", "crate::fields::fq2::Fq2"]),
              field.rule_ops_forward("C12", repo, ["crate::fields::fq2::Fq2", "crate::Fq2"])]
     return report.emit(
         "C12", ctx.tier, ctx.seed, rules, ctx.started,
